@@ -20,7 +20,8 @@ def run(ctx):
         for g in ((2, 4, 8, 16) if thorough else (4, 16)):
             trace = ctx.path("trace_%s_%d.ndjson" % (family, g))
             diffs = ctx.path("diffs_%s_%d.ndjson" % (family, g))
-            p = ctx.harness(["core", "concurrent", "--cases", cases_path, "--out", trace, "--diffs", diffs, "--g", g,
+            all_cases = ctx.path("cases_all_%s_%d.ndjson" % (family, g))     # + sibling programs made by the driver
+            p = ctx.harness(["core", "concurrent", "--cases", cases_path, "--cases-out", all_cases, "--out", trace, "--diffs", diffs, "--g", g,
                              "--rounds", 40 if thorough else 4], race=True, check=False, timeout=1500,
                             env={"GORACE": "halt_on_error=0 exitcode=0", "VERIF_SEED": str(ctx.seed * 100 + g)})
             if p.returncode != 0:
@@ -38,7 +39,8 @@ def run(ctx):
                               "runner %d of %d concurrent ones (family %s) differs from the same runner driven alone at event %d: concurrently %s, alone %s"
                               % (d["goroutine"], d["goroutines"], family, d["event"], cc.short(d["concurrent"]), cc.short(d["alone"])),
                               signature="concurrent:differs-from-alone")
-            res = cc.validate(ctx, cases_path, trace, label="YarnTrace: %s, %d goroutines" % (family, g))
+            cases, _ = cc.load_cases(all_cases)
+            res = cc.validate(ctx, all_cases, trace, label="YarnTrace: %s, %d goroutines" % (family, g))
             tix = None
             for b in res["bad"]:
                 tix = tix or cc.TraceIndex(trace)
@@ -47,6 +49,7 @@ def run(ctx):
                               % (b["id"], b["line"], cc.describe_diff(b["field"], b["exp"], b["got"])), signature="concurrent:" + b["field"])
             total_runs += stats["runs"]
             total_events += stats["events"]
+            ctx.cover(rounds_sibling_programs=stats["sibling_rounds"], rounds_shared_snapshot=stats["shared_snapshot_rounds"])
             for e in vlib.read_ndjson(trace):
                 if e["ev"] == "reset":
                     distinct.add((family, e["id"], g))
@@ -55,7 +58,9 @@ def run(ctx):
     ctx.cover(evaluations=total_runs, distinct_nontrivial=len(distinct), concurrent_runs=total_runs, events_validated=total_events,
               race_reports=races_total, samples=samples,
               rule="rounds of G in {2,4,8,16} goroutines released together, each parsing and driving its own runner (distinct programs, and rounds "
-                   "where all goroutines get the same program) under the race detector; every run is repeated alone with the same seed and must "
+                   "where all goroutines get the same program, rounds where they get two programs whose first readers are byte-identical while the other "
+                   "readers define the same titles differently, rounds where every goroutine restores its own runner from ONE snapshot value "
+                   "taken by another runner) under the race detector; every run is repeated alone with the same seed and must "
                    "give the identical event list, and is validated against the runner specification; distinct = (family, program, G) triples")
     ctx.assumptions += ["data-race freedom is observed by Go's race detector on the schedules that occurred; TLC decides the functional half "
                         "(each runner's trace is the behaviour of its own case)",
